@@ -310,6 +310,11 @@ pub fn mmio_cam_sweep(cam: Cam, stride: usize) -> (u64, Vec<(String, String)>) {
 
 /// Bus enumeration over a population of representative slots.
 pub fn enumerate_case(pop: u8) -> Vec<(String, String)> {
+    enumerate_case_with(pop, [0x00, 0x81, 0x02, 0x80, 0x05, 0x7f])
+}
+
+/// The same with chosen raw header-type bytes (bit 7 = multi-function, bits 0..6 = layout).
+pub fn enumerate_case_with(pop: u8, header_types: [u8; 6]) -> Vec<(String, String)> {
     let slots: [(u8, u8); 6] = [(0, 0), (0, 1), (0, 7), (1, 0), (31, 0), (31, 7)];
     let busno = 5u8;
     let mut b = PciBusState::default();
@@ -321,7 +326,7 @@ pub fn enumerate_case(pop: u8) -> Vec<(String, String)> {
             pf.subclass = 0x20 + i as u8;
             pf.prog_if = 0x30 + i as u8;
             pf.revision = 0x40 + i as u8;
-            pf.header_type = [0x00, 0x81, 0x02, 0x80, 0x05, 0x7f][i];
+            pf.header_type = header_types[i];
             want.push(((busno, *d, *f), pf.clone()));
             b.funcs.insert((busno, *d, *f), pf);
         }
